@@ -21,8 +21,8 @@ import (
 	"github.com/high-moctane/mocrelay"
 	"github.com/high-moctane/mocrelay/handler/sqlite"
 	vk "github.com/high-moctane/mocrelay/internal/verifkit"
-	_ "github.com/mattn/go-sqlite3"
 	mprom "github.com/high-moctane/mocrelay/middleware/prometheus"
+	_ "github.com/mattn/go-sqlite3"
 	"github.com/prometheus/client_golang/prometheus"
 )
 
